@@ -1,8 +1,11 @@
 package main
 
 import (
+	"encoding/hex"
 	"fmt"
 	"go/types"
+	"hash/fnv"
+	"strconv"
 	"strings"
 
 	"golang.org/x/tools/go/ssa"
@@ -76,12 +79,18 @@ func (ex *Exec) inputName(base string) string {
 func (ex *Exec) newInput(base string, w int) *Term {
 	name := ex.inputName(base)
 	if ex.concrete != nil {
-		return BV(wOr1(w), ex.concrete[name])
+		v, _ := strconv.ParseUint(ex.concrete[name], 10, 64)
+		if w == 0 {
+			return Bool(v != 0)
+		}
+		return BV(w, v)
 	}
 	t := Var(name, w)
 	ex.inputs = append(ex.inputs, inputVar{name: name, t: t})
 	return t
 }
+
+var _ = wOr1
 
 func wOr1(w int) int {
 	if w == 0 {
@@ -101,14 +110,25 @@ func init() {
 		}
 	}
 	suffixStubs["vfBool"] = func(ex *Exec, fn *ssa.Function, args []Value) Value {
-		name := ex.inputName(ex.argString(args[0]))
-		t := Var(name, 0)
-		ex.inputs = append(ex.inputs, inputVar{name: name, t: t})
-		return t
+		return ex.newInput(ex.argString(args[0]), 0)
 	}
 	suffixStubs["vfBytes"] = func(ex *Exec, fn *ssa.Function, args []Value) Value {
 		name := ex.inputName(ex.argString(args[0]))
 		n := args[1].(*Term)
+		if ex.concrete != nil {
+			nc, ok := n.ConstVal()
+			if !ok {
+				panic(unsupported("concrete mode: vfBytes with symbolic length"))
+			}
+			data := make([]byte, nc)
+			if v := ex.concrete[name]; v != "" {
+				if i := strings.Index(v, "hex="); i >= 0 {
+					raw, _ := hex.DecodeString(v[i+4:])
+					copy(data, raw)
+				}
+			}
+			return ex.bytesValue(data)
+		}
 		ex.oblige(AndB(Sge(n, BV(64, 0)), Slt(n, BV(64, 1<<32))), "harness", "vfBytes length out of range")
 		o := ex.newBytes(freshLayer(name), n, name)
 		ex.inputs = append(ex.inputs, inputVar{name: name, arr: name, n: n})
@@ -185,6 +205,23 @@ func init() {
 	}
 	suffixStubs["vfIte"] = func(ex *Exec, fn *ssa.Function, args []Value) Value {
 		return Ite(args[0].(*Term), args[1].(*Term), args[2].(*Term))
+	}
+	suffixStubs["vfFuncID"] = func(ex *Exec, fn *ssa.Function, args []Value) Value {
+		iv := args[0].(*IfaceV)
+		if iv.Typ == nil {
+			return BV(64, 0)
+		}
+		f, _ := iv.Val.(*FuncV)
+		if f == nil {
+			return BV(64, 0)
+		}
+		name := f.Name
+		if f.Fn != nil {
+			name = f.Fn.String()
+		}
+		h := fnv.New64a()
+		h.Write([]byte(name))
+		return BV(64, h.Sum64()|1)
 	}
 	suffixStubs["vfSymbolic"] = func(ex *Exec, fn *ssa.Function, args []Value) Value {
 		return Bool(ex.concrete == nil)
